@@ -232,7 +232,8 @@ def order_consistent(order, new):
     while changed:
         changed = False
         for of in list(rest):
-            if of[1] in comp or of[2] in comp:
+            # constants do not connect facts: join only through a shared non-constant term
+            if (of[1][0] != 'c' and of[1] in comp) or (of[2][0] != 'c' and of[2] in comp):
                 comp.add(of[1]); comp.add(of[2]); facts.append(of); rest.remove(of); changed = True
     if len(facts) < 2: return True
     terms = sorted(comp, key=repr)
@@ -738,6 +739,30 @@ def find_roots(prog):
             roots.setdefault(last, []).append((sig['def'], params, sig))
     return roots
 
+def serde_tables(prog):
+    """what the derived serde impls do, read from their MIR (the resolved program, not attribute text):
+    unit-variant names written by Serialize; fields for which Deserialize reports `missing_field` (i.e. required fields)"""
+    out = {'unit_variant_names': {}, 'required_fields': {}, 'struct_field_names': {}}
+    for b in prog.raw['bodies']:
+        d = b['def']
+        m = re.search(r'Serialize for (.+)>::serialize$', d)
+        m2 = re.search(r"Deserialize<'de> for (.+)>::deserialize::__Visitor<'de> as .*Visitor<'de>>::visit_map$", d)
+        if not (m or m2): continue
+        for bb in b['blocks']:
+            t = bb['t']
+            if t['k'] != 'call' or 'fn' not in t['f']: continue
+            fname = t['f']['fn']['def']
+            consts = [parse_const(a) for a in t['args'] if a['k'] == 'const' and 'fn' not in a]
+            strs = [c[1] for c in consts if c[0] == 'c' and isinstance(c[1], str)]
+            ints = [c[1] for c in consts if c[0] == 'c' and isinstance(c[1], int) and not isinstance(c[1], bool)]
+            if m and fname.endswith('serialize_unit_variant') and len(strs) == 2 and ints:
+                out['unit_variant_names'].setdefault(m.group(1), {})[ints[0]] = strs[1]
+            if m and fname.endswith('serialize_field') and strs:
+                out['struct_field_names'].setdefault(m.group(1), []).append(strs[0])
+            if m2 and fname.endswith('missing_field') and strs:
+                out['required_fields'].setdefault(m2.group(1), []).append(strs[0])
+    return out
+
 def analyse(facts_path, out_path=None, verbose=False):
     facts = json.load(open(facts_path))
     prog = Program(facts)
@@ -755,6 +780,7 @@ def analyse(facts_path, out_path=None, verbose=False):
                 ks = {}
                 for e in r['exits']: ks[e['kind']] = ks.get(e['kind'], 0) + 1
                 print('root %-12s %-24s exits=%d %s wall=%.1fs steps=%d' % (kind, name, len(r['exits']), ks, r['wall'], it.steps), file=sys.stderr)
+    result['serde'] = serde_tables(prog)
     result['unmodelled'] = it.unmodelled
     result['inlined'] = it.inlined
     result['steps'] = it.steps
